@@ -1,6 +1,7 @@
 package gen
 
 import (
+	"fmt"
 	"strings"
 )
 
@@ -38,6 +39,7 @@ type Layout struct {
 	TrailBlank int    `json:"trail"`      // blank lines after
 	Ann        string `json:"ann"`        // "inline" | "multi" | "multi-broken"
 	QuoteNames bool   `json:"quoteNames"` // rule names in quotes
+	EscNames   bool   `json:"escNames"`   // with QuoteNames: the last letter of the name written as a \\u escape
 	Comments   string `json:"comments"`   // "" | "eol" | "own-line" | "block"
 	Indent     string `json:"indent"`
 	Glue       bool   `json:"glue"` // no blank at all between an element and its annotation (`1// {min: 1}`)
@@ -54,6 +56,9 @@ func (l Layout) Name() string {
 	s := pad + "," + nl + "," + l.Ann
 	if l.QuoteNames {
 		s += ",quoted"
+		if l.EscNames {
+			s += "-escaped"
+		}
 	}
 	if l.Comments != "" {
 		s += ",#" + l.Comments
@@ -85,6 +90,9 @@ func (l Layout) annotation(n *SNode, indent string) string {
 			}
 			name := r.Name
 			if l.QuoteNames {
+				if l.EscNames && name != "" {
+					name = name[:len(name)-1] + fmt.Sprintf("\\u%04x", name[len(name)-1])
+				}
 				name = `"` + name + `"`
 			}
 			body.WriteString(name + l.Pad + ":" + " " + l.Pad + r.Val)
